@@ -30,8 +30,6 @@ def run(ctx):
     n = 0
     for sp0 in spaces:
         for (sp, periodic) in variants(sp0):
-            if periodic and sp.ncells < sp.p + 1:
-                continue
             for (a, h) in ((0.0, 1.0), (0.5, 0.25)):
                 sig0 = {"path": sp.kind, "periodic": periodic, "uniform": sp.uniform, "cells": sp.ncells if sp.ncells < 3 else "3+"}
                 try:
